@@ -116,7 +116,10 @@ class AstToDjangoQVisitor(visitor.NodeVisitor):
 
     def visit_Null(self, node: ast.Null) -> str:
         ":meta private:"
-        raise NotImplementedError("Should not be reached")
+        # 'eq null' and 'ne null' are handled by `visit_Compare`. There is no
+        # translation for a null literal anywhere else (list members, function
+        # arguments, arithmetic):
+        raise ex.TypeException("null", "null")
 
     def visit_Integer(self, node: ast.Integer) -> Value:
         ":meta private:"
